@@ -1868,7 +1868,12 @@ class SolveUnc(_BaseODE):
             rb = self.rb
             if self.m is not None:
                 if unc:
-                    a_rb = self.invm[self._rb] * force[rb]
+                    if self.systype is float:
+                        a_rb = self.invm[self._rb] * force[rb]
+                    else:
+                        # complex: m, invm hold the elastic part only
+                        # (see get_su_eig); rb mass inverse is in imrb
+                        a_rb = self.imrb * force[rb]
                 else:
                     a_rb = la.lu_solve(self.imrb, force[rb], check_finite=False)
             else:
